@@ -18,8 +18,16 @@ for d in sorted(glob.glob(os.path.join(VERIF, "seeded", "*"))):
         meta["origin"] = f"reversal of the fix commit of defect {did} (the behaviour of the pinned tree)"
         meta["what_it_needs"] = known.get(did, {}).get("what", "")
     else:
-        meta["breaks_property"] = name.split("-")[0]
-        meta["origin"] = "sub-agent given only the property text and a scratch worktree of /repo"
+        parts = name.split("-")
+        if parts[0] == "own":
+            meta["breaks_property"] = parts[1]
+            meta["origin"] = "written by the main session as a binding test (not a sub-agent's)"
+        elif parts[0] == "benign":
+            meta["breaks_property"] = None
+            meta["origin"] = "behaviour-preserving refactoring by a sub-agent given the 20 statements: every check must stay silent on it"
+        else:
+            meta["breaks_property"] = parts[0]
+            meta["origin"] = "sub-agent given only the property text and a scratch worktree of /repo"
         notes = open(os.path.join(d, "notes.md")).read() if os.path.exists(os.path.join(d, "notes.md")) else ""
         m = re.search(r"(?is)(needed to manifest|what it needs|needs to manifest|trigger)[^\n]*\n(.{0,900})", notes)
         meta["what_it_needs"] = (m.group(2).strip() if m else notes[:900]).strip()
@@ -38,6 +46,8 @@ for d in sorted(glob.glob(os.path.join(VERIF, "seeded", "*"))):
             else:
                 meta[k] = dict(tier=j.get("tier"), at=j.get("at"),
                                results={c: dict(exit=v["exit"], violations=v["violations"]) for c, v in j["results"].items()},
-                               how="lib/seedtest.py: git -C /repo apply patch.diff; ./check <id> --tier quick; git -C /repo checkout -- .")
+                               how=("lib/seedtest_ns.py: patched copy of /repo and copy of /verif bind-mounted in a private mount namespace; ./check <id>"
+                                    if j.get("via") else
+                                    "lib/seedtest.py: git -C /repo apply patch.diff; ./check <id> --tier quick; git -C /repo checkout -- ."))
     json.dump(meta, open(os.path.join(d, "meta.json"), "w"), indent=1)
 print("meta.json written for", len(glob.glob(os.path.join(VERIF, "seeded", "*"))), "seeds")
